@@ -414,6 +414,21 @@ Ast generate_ast(Rng &rng, const GenParams &gp) {
   int nv = (int)rng.range(2, 5);
   for (int k = 0; k < nv; k++) c.vars.push_back(VAR_POOL[rng.below(11)]);
   a.main = gen_routine_body(c, 6);
+  if (a.main.size() >= 3 && rng.chance(1, 6)) {
+    // a statement that lives in its own file, included twice (not directly after each other, and never as the last statement)
+    size_t i = rng.below(a.main.size() - 2);
+    // prefer a statement that is not idempotent (x := x + 1 rather than x := 4): executing it once or twice must differ
+    for (size_t k = 0; k + 2 < a.main.size(); k++) {
+      size_t c = (i + k) % (a.main.size() - 2);
+      if (a.main[c].k == Stmt::ASSIGN && a.main[c].labels.empty() && (a.main[c].val.k == Val::ADD || a.main[c].val.k == Val::SUB) && a.main[c].val.var == a.main[c].var && a.main[c].val.c > 0) { i = c; break; }
+    }
+    if (a.main[i].k == Stmt::ASSIGN && a.main[i].labels.empty()) {
+      Stmt copy = a.main[i];
+      a.main[i].share = copy.share = 100;
+      size_t j = i + 2 + rng.below(a.main.size() - i - 2);
+      a.main.insert(a.main.begin() + j, copy);
+    }
+  }
   number_statements(a);
   return a;
 }
@@ -488,10 +503,13 @@ struct Printer {
         break;
     }
   }
+  std::map<int, std::vector<std::pair<size_t, size_t>>> shared_stmts;   // share id -> token ranges (statement incl. its ';')
   void block(const std::vector<Stmt> &b) {
     for (size_t i = 0; i < b.size(); i++) {
+      size_t a0 = out.size();
       stmt(b[i]);
       if (i + 1 < b.size()) tok(";");
+      if (b[i].share > 0 && i + 1 < b.size()) shared_stmts[b[i].share].push_back({a0, out.size()});
       nl();
     }
   }
@@ -713,6 +731,22 @@ void render(Project &p) {
         rd.segs.push_back({routine_range[i].first, routine_range[i].second, fname});
     nshared++;
   }
+  for (auto &ss : pr.shared_stmts) {
+    if (ss.second.size() < 2) continue;
+    auto lower = [](std::string t) { for (auto &ch : t) ch = (char)tolower((unsigned char)ch); return t; };
+    auto f0 = ss.second[0];
+    bool all_same = true;
+    for (auto &r : ss.second) {
+      if (r.second - r.first != f0.second - f0.first) all_same = false;
+      for (size_t k = 0; all_same && k < r.second - r.first; k++) if (lower(T[r.first + k].text) != lower(T[f0.first + k].text)) all_same = false;
+    }
+    if (!all_same) continue;
+    for (auto &r : ss.second) {
+      for (size_t k = 0; k < r.second - r.first; k++) T[r.first + k].text = T[f0.first + k].text;
+      rd.segs.push_back({r.first, r.second, "stmt" + std::to_string(ss.first) + ".theo"});
+    }
+    nshared++;
+  }
   // further files: random segments; canonical ones are aligned to line starts and never cut a macro definition
   int want = p.layout.nfiles - 1 - nshared;
   auto overlaps_badly = [&](size_t a, size_t b) {
@@ -720,7 +754,7 @@ void render(Project &p) {
       bool disjoint = b <= s.a || s.b <= a;
       bool inside = s.a <= a && b <= s.b && !(s.a == a && s.b == b);
       bool contains = a <= s.a && s.b <= b && !(s.a == a && s.b == b);
-      if (s.file.rfind("shared", 0) == 0 && !disjoint && !contains) return true;  // nothing is carved out of a shared file
+      if ((s.file.rfind("shared", 0) == 0 || s.file.rfind("stmt", 0) == 0) && !disjoint && !contains) return true;  // nothing is carved out of a shared file
       if (!(disjoint || inside || contains)) return true;
     }
     return false;
@@ -804,6 +838,7 @@ static Json stmt_to_json(const Stmt &s) {
   if (s.k == Stmt::ASSIGN || s.k == Stmt::ITE) j.set("val", val_to_json(s.val));
   if (s.k == Stmt::IF || s.k == Stmt::TWICE) j.set("c", s.c);
   if (!s.target.empty()) j.set("to", s.target);
+  if (s.share) j.set("share", s.share);
   if (!s.body.empty()) j.set("body", block_to_json(s.body));
   if (!s.body2.empty()) j.set("else", block_to_json(s.body2));
   return j;
@@ -817,7 +852,7 @@ static Stmt stmt_from_json(const Json &j) {
   if (auto l = j.find("l")) for (auto &x : l->a) s.labels.push_back(x.s);
   s.var = j.str("var"); s.var2 = j.str("var2");
   if (auto v = j.find("val")) s.val = val_from_json(*v);
-  s.c = j.num("c"); s.target = j.str("to");
+  s.c = j.num("c"); s.target = j.str("to"); s.share = (int)j.num("share");
   if (auto b = j.find("body")) s.body = block_from_json(*b);
   if (auto b = j.find("else")) s.body2 = block_from_json(*b);
   return s;
